@@ -34,6 +34,7 @@ type SolveOpts struct {
 	OutDir   string
 	Workers  int
 	Thorough bool
+	Known    map[string]bool
 }
 
 var nameSan = regexp.MustCompile(`[^A-Za-z0-9_.#:@~-]+`)
@@ -123,6 +124,18 @@ func solveOne(o *Oblig, opts SolveOpts) *Result {
 		return r
 	}
 	t0 := time.Now()
+	if opts.Known[o.Name] {
+		// recorded known finding: one short attempt, no retries (it is expected to fail)
+		a := runSolver(context.Background(), "z3-new", file, 5, opts.Seed)
+		r.Answers = append(r.Answers, a)
+		r.Secs = a.Secs
+		if a.Result == "unsat" {
+			r.Status, r.Solver = "proved", a.Solver
+		} else {
+			r.Status = "failed"
+		}
+		return r
+	}
 	a := runSolver(context.Background(), "z3-new", file, opts.TimeoutS, opts.Seed)
 	r.Answers = append(r.Answers, a)
 	if a.Result == "unsat" {
